@@ -204,7 +204,20 @@ func genPanicSpec(rt *rapid.T) *PanicSpec {
 	default:
 		s.Payload = vc.leafS(rt, "str", false, false)
 	}
+	bystanderOK := s.Kind == "stringer!" || s.Kind == "pstringer!" || s.Kind == "gostr!" || s.Kind == "fmter" // (an error would be rendered by the hook itself)
+	if bystanderOK && s.AArg == nil && s.BArg == nil && rapid.IntRange(0, 3).Draw(rt, "bystander") == 2 {
+		// an error hook that does not panic itself but prints a value whose
+		// String method panics (contained inside the hook's nested printer)
+		s.HasHookOps = true
+		s.HookOps = []*Op{{K: "ErrText"}, {K: "Print", Args: []*Val{{K: "stringer!", S: B("x"), Sub: []*Val{vc.leafS(rt, "str", false, false)}}}}, {K: "SafeString", S: B("|")}}
+		if rapid.Bool().Draw(rt, "bystanderPrintf") {
+			s.HookOps[1] = &Op{K: "Printf", S: B("<%v>"), Args: s.HookOps[1].Args}
+		}
+	}
 	s.Under = []string{"", "", "Unsafe", "Slice"}[rapid.IntRange(0, 3).Draw(rt, "under")]
+	if s.HasHookOps && s.Under == "Unsafe" {
+		s.Under = "" // (the hook is bypassed under Unsafe(), also for the payload)
+	}
 	switch s.Kind {
 	case "hook", "safemsg!", "safefmt", "psafefmt":
 		if s.Under == "Unsafe" {
